@@ -59,6 +59,20 @@ def run(tier):
         if os.path.isdir(os.path.join(td, n)):
             shutil.copytree(os.path.join(td, n), os.path.join(ws, "ex", n))
             pats.append("./ex/" + n)
+    # the same examples in files that carry a go1.N build constraint (all satisfied by the toolchain, so the files
+    # stay in the package): a constraint of the file is not the configured target version
+    tags = ["//go:build go1.18", "//go:build go1.21 || !go1.21", "//go:build !go1.99", "//go:build go1.20\n// +build go1.20", "//go:build (linux || !linux) && go1.22"]
+    for n in ("wrapperFunc", "syncMapLoadAndDelete", "timeExprSimplify", "badSyncOnceFunc"):
+        for k, tag in enumerate(tags):
+            if tier == "quick" and k not in (0, 1, 3):
+                continue
+            # (directory names differ in more than their last five bytes: pkgload's unit key of a package *named* x_test)
+            dst = os.path.join(ws, "ex", "tag%d_%s" % (k, n))
+            os.makedirs(dst)
+            for fn in sorted(os.listdir(os.path.join(td, n))):
+                if fn.endswith(".go"):
+                    open(os.path.join(dst, fn), "w").write(tag + "\n\n" + open(os.path.join(td, n, fn)).read())
+            pats.append("./ex/tag%d_%s" % (k, n))
     shutil.copy(os.path.join(vlib.REPO, "checkers/rules/rules.go"), os.path.join(ws, "userrules.go.txt"))
     os.makedirs(os.path.join(ws, "rules"))
     shutil.copy(os.path.join(vlib.REPO, "checkers/rules/rules.go"), os.path.join(ws, "rules", "rules.go"))
